@@ -108,6 +108,9 @@ def exercise(ctx, b, label, rng):
         els = [e for e in b['elements'].values() if 'ecp_potentials' in e]
         call_and_check(ctx, 'curate.ecp_pots_are_equal', curate.ecp_pots_are_equal, (els[0]['ecp_potentials'], copy.deepcopy(els[0]['ecp_potentials'])), {}, label, check_b=False)
     call_and_check(ctx, 'validator.validate_data', validator.validate_data, ('complete', b), {}, label, check_b=False)
+    from basis_set_exchange.curate import compare_report
+    for ug in (False, True):
+        call_and_check(ctx, 'curate.basis_comparison_report', compare_report.basis_comparison_report, (b, other), {'uncontract_general': ug}, label, check_b=False)
     if b != b0:
         ctx.violation('harness', 'accumulated', 'the basis changed over the sequence of calls although each call looked clean', {'kind': 'call', 'label': label})
 
